@@ -1,6 +1,6 @@
 (* C20 — parallel chains without exchange are exactly the sequential chains.  Statements only. *)
 From Coq Require Import List Bool Arith.
-From HV Require Import Num Integrators Sampler Parallel.
+From HV Require Import Num Integrators Sampler Parallel Network NetworkProofs IndepProofs.
 Import ListNotations.
 
 (* with exchange disabled the per-chain loop of the parallel controller is the sequential loop:
@@ -27,6 +27,32 @@ Theorem c20_routing_shared : forall (M K : Type) (m : M) (k : K) empty dm i j,
   route M K (Shared m) None empty dm i = (m, empty).
 Proof. intros; repeat split; reflexivity. Qed.
 
+(* every operating-system schedule of chain processes that do not communicate (exchange disabled): however the
+   steps of the chains are interleaved, no chain ever waits, no interleaving has more steps than there are
+   proposals in total, and an interleaving that cannot be continued has completed every chain and left in chain k
+   exactly the state chain k reaches on its own (c20_loop_equal: that is the sequential sampler's state).
+   L is the per-chain state (sampler state + file), the k-th function of a chain its k-th proposal. *)
+Theorem c20_every_schedule : forall (L M : Type) (cap : option nat) (chains : list (L * list (L -> L))) n u,
+  gpath (net L M) nat (step L M cap) (chains_net L M chains) n u ->
+    n <= list_sum (map (fun c => length (snd c)) chains) /\
+    (forall i p, nth_error (procs u) i = Some p -> prog p <> [] -> exists t, step L M cap u i t) /\
+    (gterminal (net L M) nat (step L M cap) u ->
+       map (@loc L M) (procs u) = map (alone L) chains /\ Forall (fun p => prog p = []) (procs u) /\
+       n = list_sum (map (fun c => length (snd c)) chains)).
+Proof. intros L M cap chains n u; exact (chains_every_schedule L M cap chains n u). Qed.
+
+(* non-vacuity: two chains of 2 and 1 proposals, the interleaving 0,1,0 is a complete run *)
+Example c20_schedule_nonvacuous :
+  let s0 := chains_net nat unit [(1, [Nat.add 2; Nat.mul 3]); (5, [Nat.add 1])] in
+  exists u, gpath _ nat (step nat unit None) s0 3 u /\ map (@loc nat unit) (procs u) = [9; 6].
+Proof.
+  eexists. split.
+  - eapply gpS with (l := 0); [reflexivity|]. eapply gpS with (l := 1); [reflexivity|].
+    eapply gpS with (l := 0); [reflexivity|]. apply gp0.
+  - reflexivity.
+Qed.
+
 Print Assumptions c20_loop_equal.
 Print Assumptions c20_routing_per_chain.
 Print Assumptions c20_routing_shared.
+Print Assumptions c20_every_schedule.
